@@ -5,7 +5,10 @@ import os, sys, json, time, hashlib, subprocess, shutil, re, glob
 VERIF = os.path.dirname(os.path.dirname(os.path.abspath(__file__)))
 REPO = os.environ.get('VERIF_REPO', '/repo')
 COLA = os.path.join(REPO, 'cola')
-BUILD = os.path.join(VERIF, 'build')
+# scratch trees (VERIF_REPO != /repo: mutation self-tests) get their own build directory so that concurrent runs
+# do not evict each other's object caches
+BUILD = os.path.join(VERIF, 'build') if os.path.realpath(REPO) == '/repo' else \
+    os.path.join(VERIF, 'build', 'scratch-' + hashlib.sha256(os.path.realpath(REPO).encode()).hexdigest()[:10])
 COQ = os.path.join(VERIF, 'coq')
 GUARD = 'ADAPTAGRAMS_VERIF'
 NPROC = int(os.environ.get('VERIF_JOBS', '16'))
@@ -16,8 +19,9 @@ import fcntl, contextlib
 
 @contextlib.contextmanager
 def flock(name):
-    os.makedirs(os.path.join(BUILD, 'locks'), exist_ok=True)
-    f = open(os.path.join(BUILD, 'locks', name + '.lock'), 'w')
+    ld = os.path.join(VERIF, 'build', 'locks') if name == 'coq' else os.path.join(BUILD, 'locks')
+    os.makedirs(ld, exist_ok=True)
+    f = open(os.path.join(ld, name + '.lock'), 'w')
     try:
         fcntl.flock(f, fcntl.LOCK_EX)
         yield
